@@ -1,9 +1,17 @@
 /-
 C03 — Reference-free alignment recovers exactly the true SNP columns.
-First theorems; `T03_align` is being added.
+`T03_table_shape`, `T03_equal_lengths`: shape facts valid for every table.
+`T03_align_single`, `T03_column_true_base`, `T03_equal_lengths_names`: the recovery
+theorem for single-contig samples (definitions in `Lemmas/SNP.lean`).
+`weak_repeatFree_counterexample`: why repeat-freeness must be stated on both strands.
+`T03_align_contigs`, `T03_align`: several contigs per sample, given in any order, on either
+strand and in any letter case (definitions in `Lemmas/SNPMulti.lean`, presentation
+invariance from C02).
 -/
 import SkaModel.Spec.BuildTable
 import SkaModel.Spec.Abs
+import SkaModel.Lemmas.SNPMulti
+import SkaModel.Props.C02
 
 namespace SkaModel.Props.C03
 
@@ -24,5 +32,327 @@ theorem T03_equal_lengths (tb : Table) (t : Nat) (famb : Bool) (ft : Table.SiteF
     ((tb.alignColumns t famb ft mask gaps).map (fun col => col.getD i gap)).length
       = ((tb.alignColumns t famb ft mask gaps).map (fun col => col.getD j gap)).length := by
   simp
+
+/-! ## Recovery of the true SNP columns (single-contig samples)
+
+Setting (`Lemmas/SNP.lean`): `S` is a list of samples, each one record of length `L` over
+upper-case A, C, G, T (`SNP.Family L S`). `SNP.varSites L S` are the positions at which two
+samples differ. `SNP.RepeatFree k rc L S`: equal split k-mer keys occur only at equal
+window coordinates *and with equal arms* (unique on both strands), and no window is its own
+reverse complement. `SNP.Isolated k L S`: every variable site is at least `h = (k-1)/2`
+from both ends and more than `h` from every other variable site. Each of the three has a
+`Bool` checker (`familyB`, `repeatFreeB`, `isolatedB`) with an `_iff` theorem.
+
+Neither `h ≥ 1` nor `n ≥ 2` is needed (for `n ≤ 1` both sides are empty). -/
+
+open SkaModel.SNP
+
+/-- **C03, single contig.** `ska align --min-freq 1 --filter no-const` on the joint build of
+the family outputs, up to the order of the columns, exactly one column per variable site `p`
+-- the row of the window centred on `p`, holding for each sample the base the iterator
+reports for it -- and no other column. -/
+theorem T03_align_single {k L : Nat} {rc : Bool} (names : List String) {S : List (Array UInt8)}
+    (hk : k % 2 = 1) (hF : Family L S) (hR : RepeatFree k rc L S) (hI : Isolated k L S) :
+    ((specTable k rc names (S.map fun s => [s])).alignColumns S.length false .noConst false false).Perm
+      ((varSites L S).map fun p => S.map fun s => decodeBase (obs k rc s (p - (k - 1) / 2)).2.1) := by
+  rw [alignColumns_eq]
+  exact passing_rows_perm hF hk hR hI
+
+/-- the column of a variable site `p`: all samples were read on the same strand there
+(flag `f`); the column holds each sample's true base at `p` when `f = false` and the
+complement of each sample's true base when `f = true` -/
+theorem T03_column_strand {k L : Nat} {rc : Bool} {S : List (Array UInt8)}
+    (hk : k % 2 = 1) (hI : Isolated k L S) {p : Nat} (hp : p ∈ varSites L S) :
+    ∃ f : Bool, (∀ s ∈ S, (obs k rc s (p - (k - 1) / 2)).2.2 = f) ∧
+      (S.map fun s => decodeBase (obs k rc s (p - (k - 1) / 2)).2.1)
+        = S.map fun s => decodeBase
+            (if f then code (s.getD p 0) ^^^ 2 else code (s.getD p 0)) := by
+  obtain ⟨s0, hs0, _⟩ := varSite_true.mp (mem_varSites.mp hp).2
+  have hflag : ∀ s ∈ S, (obs k rc s (p - (k - 1) / 2)).2.2 = (obs k rc s0 (p - (k - 1) / 2)).2.2 :=
+    fun s hs => (obs_of_arms_eq (arms_agree hI hp hs hs0)).2.1
+  refine ⟨_, hflag, ?_⟩
+  apply List.map_congr_left
+  intro s hs
+  rw [obs_mid, hflag s hs]
+  unfold midAt
+  rw [(window_of_site hk hI hp).2]
+
+/-- **C03, the bases.** The column of a variable site is the list of the samples' true
+bases there, or the list of their complements -- the same choice for every sample. -/
+theorem T03_column_true_base {k L : Nat} {rc : Bool} {S : List (Array UInt8)}
+    (hk : k % 2 = 1) (hI : Isolated k L S) {p : Nat} (hp : p ∈ varSites L S) :
+    (S.map fun s => decodeBase (obs k rc s (p - (k - 1) / 2)).2.1)
+        = S.map (fun s => decodeBase (code (s.getD p 0))) ∨
+    (S.map fun s => decodeBase (obs k rc s (p - (k - 1) / 2)).2.1)
+        = S.map (fun s => decodeBase (code (s.getD p 0) ^^^ 2)) := by
+  obtain ⟨f, _, h⟩ := T03_column_strand (rc := rc) hk hI hp
+  cases f with
+  | false => exact Or.inl (by simpa using h)
+  | true => exact Or.inr (by simpa using h)
+
+/-- `decodeBase (code b)` is the byte itself: in the first case of `T03_column_true_base`
+the column is literally the bytes of the samples at `p` -/
+theorem T03_true_base_bytes {L : Nat} {S : List (Array UInt8)} (hF : Family L S) {p : Nat}
+    (hp : p < L) :
+    S.map (fun s => decodeBase (code (s.getD p 0))) = S.map (fun s => s.getD p 0) := by
+  apply List.map_congr_left
+  intro s hs
+  exact decode_code (hF.acgt s hs p hp)
+
+/-- on one strand (`rc = false`) the column is always the list of true bases -/
+theorem T03_column_true_base_fwd {k L : Nat} {S : List (Array UInt8)}
+    (hk : k % 2 = 1) (hI : Isolated k L S) {p : Nat} (hp : p ∈ varSites L S) :
+    (S.map fun s => decodeBase (obs k false s (p - (k - 1) / 2)).2.1)
+        = S.map (fun s => decodeBase (code (s.getD p 0))) := by
+  obtain ⟨f, hf, h⟩ := T03_column_strand (rc := false) hk hI hp
+  obtain ⟨s0, hs0, _⟩ := varSite_true.mp (mem_varSites.mp hp).2
+  have : f = false := by
+    rw [← hf s0 hs0]
+    simp [obs]
+  subst this
+  simpa using h
+
+/-- **C03, shape.** Every output sequence (sample `i` read across the emitted columns) has
+length `|V|`; every column has one entry per sample; the names are the input names in input
+order. -/
+theorem T03_equal_lengths_names {k L : Nat} {rc : Bool} (names : List String)
+    {S : List (Array UInt8)}
+    (hk : k % 2 = 1) (hF : Family L S) (hR : RepeatFree k rc L S) (hI : Isolated k L S) :
+    let tb := specTable k rc names (S.map fun s => [s])
+    tb.names = names ∧
+    (∀ i, ((tb.alignColumns S.length false .noConst false false).map
+        (fun col => col.getD i gap)).length = (varSites L S).length) ∧
+    (∀ col ∈ tb.alignColumns S.length false .noConst false false, col.length = S.length) := by
+  intro tb
+  have hperm := T03_align_single names hk hF hR hI
+  refine ⟨rfl, ?_, ?_⟩
+  · intro i
+    rw [List.length_map, hperm.length_eq, List.length_map]
+  · intro col hcol
+    have := hperm.mem_iff.mp hcol
+    obtain ⟨p, _, rfl⟩ := List.mem_map.mp this
+    simp
+
+/-! ## Uniqueness of the keys alone is not enough on both strands
+
+`SNP.RepeatFreeWeak` only asks that equal keys occur at equal coordinates. With `rc = true`
+that is too weak: two substitutions `k - 1` apart (which `Isolated` allows, `k - 1 > h`) can
+turn a window `x·w·m·w'·y` of one sample into the reverse complement of the same window of
+another sample; both samples then store the same canonical key at the same coordinate,
+but read on opposite strands, and the row shows `m` against its complement: a column
+for a site at which no sample differs. -/
+
+/-- `ACAAGTCAA` and `ACGAGTTAA`: substitutions at 2 and 6; `AAGTC` reverse-complemented is
+`GACTT`, so window 2 of the second sample (`GAGTT`, arms `GA·TT`) is the reverse complement
+of the arms `AA·TC` of the first -/
+def cexS : List (Array UInt8) :=
+  [#[65, 67, 65, 65, 71, 84, 67, 65, 65], #[65, 67, 71, 65, 71, 84, 84, 65, 65]]
+
+/-- all hypotheses of `T03_align_single` hold with `RepeatFreeWeak` in place of `RepeatFree`,
+there are two variable sites, and three columns come out; the middle one, `G`/`C`, belongs to
+position 4 where both samples have `G` -/
+theorem weak_repeatFree_counterexample :
+    Family 9 cexS ∧ RepeatFreeWeak 5 true 9 cexS ∧ Isolated 5 9 cexS ∧
+    varSites 9 cexS = [2, 6] ∧
+    (specTable 5 true ["a", "b"] (cexS.map fun s => [s])).alignColumns 2 false .noConst false false
+      = [[65, 71], [71, 67], [71, 65]] ∧
+    ¬ RepeatFree 5 true 9 cexS := by
+  refine ⟨(family_iff _ _).mp (by decide), (repeatFreeWeak_iff _ _ _ _).mp (by decide),
+    (isolated_iff _ _ _).mp (by decide), by decide, by decide, ?_⟩
+  rw [← repeatFree_iff]
+  decide
+
+/-! ## Non-vacuity: three samples, two isolated SNPs -/
+
+/-- `CGTTTAGCGTCCC`, `CGTATAGCGTCCC`, `CGTCTAGCGACCC` -/
+def exS : List (Array UInt8) :=
+  [#[67, 71, 84, 84, 84, 65, 71, 67, 71, 84, 67, 67, 67],
+   #[67, 71, 84, 65, 84, 65, 71, 67, 71, 84, 67, 67, 67],
+   #[67, 71, 84, 67, 84, 65, 71, 67, 71, 65, 67, 67, 67]]
+
+theorem exS_hyps : Family 13 exS ∧ RepeatFree 5 true 13 exS ∧ Isolated 5 13 exS :=
+  ⟨(family_iff _ _).mp (by decide), (repeatFree_iff _ _ _ _).mp (by decide),
+    (isolated_iff _ _ _).mp (by decide)⟩
+
+/-- the variable sites are 3 (T/A/C) and 9 (T/T/A) -/
+example : varSites 13 exS = [3, 9] := by decide
+
+/-- the table has 18 rows; `align` emits two columns: `ATG` (site 3, read on the reverse
+strand: the complements of T, A, C) and `TTA` (site 9, read forward) -/
+example :
+    (specTable 5 true ["a", "b", "c"] (exS.map fun s => [s])).alignColumns 3 false .noConst false false
+      = [[65, 84, 71], [84, 84, 65]] := by decide
+
+/-- the instance of `T03_align_single` -/
+example :
+    ((specTable 5 true ["a", "b", "c"] (exS.map fun s => [s])).alignColumns 3 false .noConst false
+      false).Perm
+      ((varSites 13 exS).map fun p => exS.map fun s => decodeBase (obs 5 true s (p - 2)).2.1) :=
+  T03_align_single (k := 5) _ (by decide) exS_hyps.1 exS_hyps.2.1 exS_hyps.2.2
+
+/-! ## Several contigs, in any order and orientation
+
+`A` is the family as it would be written with every sample listing its version of contig
+`0, 1, …, m-1` in that order and on the same strand: `SNP.contig A c` is the single-contig
+family of contig `c`, of length `L c` (`SNP.FamilyM m L A`). `SNP.RepeatFreeM`: a key occurs
+in one contig only, there at one coordinate only, always with the same arms; no palindromic
+window. Isolation is per contig. The variable sites are the pairs `(c, p)` with
+`p ∈ varSites (L c) (contig A c)`.
+
+`T` is what is actually fed to `ska build`: sample `i` of `T` presents sample `i` of `A`
+with its records permuted, any of them reverse-complemented, any letters in lower case
+(`Presents`, the transformations of C02). -/
+
+/-- `t` lists the records of `a` in some order, each on either strand, in any letter case -/
+def Presents (a t : List (Array UInt8)) : Prop :=
+  ∃ a', Pointwise C02.StrandCaseVariant a a' ∧ a'.Perm t
+
+theorem acgt_isDna {b : UInt8} (h : acgt b = true) : isDna b = true := by
+  rcases acgt_cases h with rfl | rfl | rfl | rfl <;> decide
+
+theorem isDna_of_acgt_array {r : Array UInt8} (h : ∀ p, p < r.size → acgt (r.getD p 0) = true) :
+    ∀ b, b ∈ r.toList → isDna b = true := by
+  intro b hb
+  obtain ⟨p, hp, rfl⟩ := List.mem_iff_getElem.mp hb
+  have hp' : p < r.size := by simpa using hp
+  have e : r.getD p 0 = r.toList[p] := by
+    rw [Array.getD_eq_getD_getElem?]
+    simp [hp']
+  rw [← e]
+  exact acgt_isDna (h p hp')
+
+theorem dnaInput_of_familyM {m : Nat} {L : Nat → Nat} {A : List (List (Array UInt8))}
+    (hF : FamilyM m L A) {recs : List (Array UInt8)} (hrecs : recs ∈ A) : C02.DnaInput recs := by
+  intro r hr
+  obtain ⟨c, hc, rfl⟩ := mem_iff_getD.mp hr
+  rw [hF.width recs hrecs] at hc
+  have hs : recs.getD c #[] ∈ contig A c := List.mem_map.mpr ⟨recs, hrecs, rfl⟩
+  have hsz := (hF.fam c hc).size _ hs
+  apply isDna_of_acgt_array
+  intro p hp
+  exact (hF.fam c hc).acgt _ hs p (by omega)
+
+/-- C02 at the level of observation sets: a presentation of a record list contributes the
+same set of (key, middle-base set) observations -/
+theorem sameObsList_of_presents {k : Nat} (hk : k % 2 = 1) {a t : List (Array UInt8)}
+    (hd : C02.DnaInput a) (h : Presents a t) : SameObsList k true a t := by
+  obtain ⟨a', hv, hp⟩ := h
+  intro o
+  rw [← (C02.T02_perm_observations k true hp).mem_iff]
+  have hs : Pointwise (SameObs k true) a a' := by
+    refine hv.mono_mem (fun r hmem b hab => ?_)
+    obtain ⟨m, e | e⟩ := hab
+    · intro o; rw [e, C02.T02_case_single]
+    · intro o
+      rw [e, C02.T02_case_single]
+      exact sameObs_revCompSeq hk (C02.allDna_of_forall (hd _ hmem)) o
+  exact (observations_mem_congr hs o).symm
+
+/-- **C03, contig by contig** (same record order and strand in every sample; either `rc`):
+one column per variable site `(c, p)`, nothing else. -/
+theorem T03_align_contigs {k m : Nat} {rc : Bool} {L : Nat → Nat} (names : List String)
+    {A : List (List (Array UInt8))} (hk : k % 2 = 1) (hF : FamilyM m L A)
+    (hR : RepeatFreeM k rc m L A) (hI : ∀ c, c < m → Isolated k (L c) (contig A c)) :
+    ((specTable k rc names A).alignColumns A.length false .noConst false false).Perm
+      ((List.range m).flatMap fun c => (varSites (L c) (contig A c)).map fun p =>
+        (contig A c).map fun s => decodeBase (obs k rc s (p - (k - 1) / 2)).2.1) :=
+  align_contigs hF hk hR hI names
+
+/-- **C03.** Samples derived from a common repeat-free set of contigs by isolated
+substitutions, each sample giving its contigs in any order, on either strand, in any
+letter case: `ska align --min-freq 1 --filter no-const` on their joint build (both strands
+in use) outputs, up to column order, exactly one column per variable site `(c, p)` and no
+other column. The column is the one described by `T03_column_true_base` for the family
+`contig A c`: each sample's true base at `(c, p)` in the frame of `A`, or each sample's
+complemented base. -/
+theorem T03_align {k m : Nat} {L : Nat → Nat} (names : List String)
+    {A T : List (List (Array UInt8))} (hk : k % 2 = 1) (hF : FamilyM m L A)
+    (hR : RepeatFreeM k true m L A) (hI : ∀ c, c < m → Isolated k (L c) (contig A c))
+    (hT : Pointwise Presents A T) :
+    ((specTable k true names T).alignColumns T.length false .noConst false false).Perm
+      ((List.range m).flatMap fun c => (varSites (L c) (contig A c)).map fun p =>
+        (contig A c).map fun s => decodeBase (obs k true s (p - (k - 1) / 2)).2.1) := by
+  have hS : Pointwise (SameObsList k true) A T :=
+    hT.mono_mem (fun a ha t hat => sameObsList_of_presents hk (dnaInput_of_familyM hF ha) hat)
+  rw [Pointwise.length_eq hS]
+  exact (alignColumns_perm_of_sameObs hS names names A.length).trans
+    (align_contigs hF hk hR hI names)
+
+/-- shape of the output of `T03_align`: input names in input order, every sequence as long
+as the number of variable sites, one entry per sample in every column -/
+theorem T03_align_lengths_names {k m : Nat} {L : Nat → Nat} (names : List String)
+    {A T : List (List (Array UInt8))} (hk : k % 2 = 1) (hF : FamilyM m L A)
+    (hR : RepeatFreeM k true m L A) (hI : ∀ c, c < m → Isolated k (L c) (contig A c))
+    (hT : Pointwise Presents A T) :
+    let tb := specTable k true names T
+    tb.names = names ∧
+    (∀ i, ((tb.alignColumns T.length false .noConst false false).map
+        (fun col => col.getD i gap)).length
+        = ((List.range m).flatMap fun c => varSites (L c) (contig A c)).length) ∧
+    (∀ col ∈ tb.alignColumns T.length false .noConst false false, col.length = T.length) := by
+  intro tb
+  have hperm := T03_align names hk hF hR hI hT
+  refine ⟨rfl, ?_, ?_⟩
+  · intro i
+    rw [List.length_map, hperm.length_eq, List.length_flatMap, List.length_flatMap]
+    simp only [List.length_map]
+  · intro col hcol
+    obtain ⟨c, _, hc⟩ := List.mem_flatMap.mp (hperm.mem_iff.mp hcol)
+    obtain ⟨p, _, rfl⟩ := List.mem_map.mp hc
+    have hS : Pointwise (SameObsList k true) A T :=
+      hT.mono_mem (fun a ha t hat => sameObsList_of_presents hk (dnaInput_of_familyM hF ha) hat)
+    rw [List.length_map, contig_length, Pointwise.length_eq hS]
+
+/-! ### Non-vacuity, two contigs -/
+
+/-- contigs `GCGAGGGGT` (site 4: G/T/G) and `TGAGGTCGTG` (site 5: T/T/C) -/
+def exA : List (List (Array UInt8)) :=
+  [[#[71, 67, 71, 65, 71, 71, 71, 71, 84], #[84, 71, 65, 71, 71, 84, 67, 71, 84, 71]],
+   [#[71, 67, 71, 65, 84, 71, 71, 71, 84], #[84, 71, 65, 71, 71, 84, 67, 71, 84, 71]],
+   [#[71, 67, 71, 65, 71, 71, 71, 71, 84], #[84, 71, 65, 71, 71, 67, 67, 71, 84, 71]]]
+
+/-- the input: sample 2 lists its contigs in the other order, sample 3 gives contig 0
+reverse-complemented (`ACCCCTCGC`) -/
+def exT : List (List (Array UInt8)) :=
+  [[#[71, 67, 71, 65, 71, 71, 71, 71, 84], #[84, 71, 65, 71, 71, 84, 67, 71, 84, 71]],
+   [#[84, 71, 65, 71, 71, 84, 67, 71, 84, 71], #[71, 67, 71, 65, 84, 71, 71, 71, 84]],
+   [#[65, 67, 67, 67, 67, 84, 67, 71, 67], #[84, 71, 65, 71, 71, 67, 67, 71, 84, 71]]]
+
+def exL : Nat → Nat := fun c => if c = 0 then 9 else 10
+
+theorem exA_hyps : FamilyM 2 exL exA ∧ RepeatFreeM 5 true 2 exL exA ∧
+    ∀ c, c < 2 → Isolated 5 (exL c) (contig exA c) := by
+  refine ⟨(familyM_iff _ _ _).mp (by decide), (repeatFreeM_iff _ _ _ _ _).mp (by decide), ?_⟩
+  have h : ∀ c : Fin 2, isolatedB 5 (exL c.val) (contig exA c.val) = true := by decide
+  intro c hc
+  exact (isolated_iff _ _ _).mp (h ⟨c, hc⟩)
+
+theorem exT_presents : Pointwise Presents exA exT := by
+  have v : ∀ r : Array UInt8, applyCase [] r = r → C02.StrandCaseVariant r r :=
+    fun r h => ⟨[], Or.inl h.symm⟩
+  refine Pointwise.cons ⟨_, Pointwise.cons (v _ (by decide)) (Pointwise.cons (v _ (by decide))
+    Pointwise.nil), List.Perm.refl _⟩ ?_
+  refine Pointwise.cons ⟨_, Pointwise.cons (v _ (by decide)) (Pointwise.cons (v _ (by decide))
+    Pointwise.nil), List.Perm.swap _ _ _⟩ ?_
+  refine Pointwise.cons ⟨[#[65, 67, 67, 67, 67, 84, 67, 71, 67],
+    #[84, 71, 65, 71, 71, 67, 67, 71, 84, 71]],
+    Pointwise.cons ⟨[], Or.inr (by decide)⟩ (Pointwise.cons (v _ (by decide))
+    Pointwise.nil), List.Perm.refl _⟩ Pointwise.nil
+
+/-- two columns come out, `CAC` (contig 0 site 4, complemented) and `AAG` (contig 1 site 5,
+complemented) -/
+example : (specTable 5 true ["a", "b", "c"] exT).alignColumns 3 false .noConst false false
+    = [[67, 65, 67], [65, 65, 71]] := by decide
+
+example : ((List.range 2).flatMap fun c => (varSites (exL c) (contig exA c)).map fun p =>
+    (contig exA c).map fun s => decodeBase (obs 5 true s (p - 2)).2.1)
+    = [[67, 65, 67], [65, 65, 71]] := by decide
+
+/-- the instance of `T03_align` -/
+example :
+    ((specTable 5 true ["a", "b", "c"] exT).alignColumns 3 false .noConst false false).Perm
+      ((List.range 2).flatMap fun c => (varSites (exL c) (contig exA c)).map fun p =>
+        (contig exA c).map fun s => decodeBase (obs 5 true s (p - 2)).2.1) :=
+  T03_align (k := 5) _ (by decide) exA_hyps.1 exA_hyps.2.1 exA_hyps.2.2 exT_presents
 
 end SkaModel.Props.C03
